@@ -9,7 +9,7 @@ META = {
     'design_ref': 'DESIGN.md §4 (section of C11), §5 (defects), §7 (seeded changes)',
     'text': 'Kernel-checked, unbounded: Allows = regenerated table; every override round pins a known version not below (strictly above, for a comparator that separates '
             'distinct versions) the resolved one with an allowed difference and fewer vulnerabilities; the level bounds the difference to the ORIGINAL base after any '
-            'number of rounds (given DiffClassLaws: same-major / same-major.minor / same are transitive) and the loop stops within |versions| rounds (given HonoursPins: '
+            'number of rounds (given DiffClassLaws: same-major / same-major.minor / same are transitive) and the loop stops within |versions| rounds (given HonoursPinsM: '
             're-resolution yields the pinned version); every Relax step builds the new requirement from a version strictly above the highest matching one with an allowed '
             'difference; suggestMavenVersion (after fixes 3e9bb9ee, 63128997) proposes only known versions STRICTLY above current with an allowed difference, for every input '
             '(full strength; a range no known version satisfies keeps the requirement), and Suggest does so for EVERY requirement of a manifest against that requirement\'s own version (C11_update_patch); level None touches nothing in all three. '
@@ -56,8 +56,8 @@ def run(ctx):
                    'deps.dev semver (Compare / Difference / ParseConstraint / MatchVersion) and the deps.dev resolvers: parameters, tabulated per case with the same libraries',
                    'c11gen -emit-allows copies Level.Allows faithfully into Gen/Allows.lean (40 rows, human-diffable)',
                    'slices.SortFunc / BinarySearchFunc contracts', 'harness/cmd/c11gen + harness/remx + lean/Drivers/C11.lean', 'Lean compiler for the driver executable']
-    ctx.assumptions = ['DiffClassLaws (same-major, same-major.minor, same are transitive; diff a a = Same): hypothesis of C11_cumulative, evaluated on every generated universe (field laws=)',
-                       'HonoursPins (re-resolution yields the pinned version): hypothesis of C11_cumulative / C11_terminates, observed on every override case (req = final)',
+    ctx.assumptions = ['DiffClassLaws (same-major, same-major.minor, same are transitive; diff a a = Same): hypothesis of C11_cumulative_partial / C11_cumulative_multi_partial, evaluated on every generated universe (field laws=)',
+                       'HonoursPinsM (re-resolution yields the pinned version): hypothesis of C11_cumulative_partial / C11_cumulative_multi_partial and of the termination theorems, observed on every override case (req = final)',
                        'the Maven order is deps.dev semver.Maven (third party) with the two exceptions mavenutil.CompareVersions documents (guava flavours, commons date versions), restated in harness/remx SpecMavenCompare: rank tables come from that restatement and the real comparator is compared with it on every pair of every sg / up / ov universe (field cmp=); npm: semver.NPM.Compare',
                        'Relax: requirements that are not semver constraints (dist-tags) are outside the model']
     ctx.rule = ('rx = (level, single comparators and || unions of 2-3 islands with releases in the gaps, 1-12 npm versions incl. pre-releases and 0.x, half of the universes with dist-tags: latest below / inside / above the range, next, beta) through the real NpmRelaxer.Relax, old and new requirement resolved by the real npm resolver; sg = (level, plain/range requirement, 1-13 Maven versions, '
